@@ -175,6 +175,28 @@ def kinetic_cases(draw, *, max_datasets=3, allow_full=True, allow_irf=True, iden
 # ------------------------------------------------------------------------------------------
 
 
+TIME_PARAMETERS = {"irf": lambda n: n.startswith(("center", "width", "disp", "wdisp")) and n != "dispc"}
+
+
+def rescale_time(case, unit):
+    """The same physics with the time axis in another unit (``unit`` new units per old one): time axes, IRF positions, widths
+    and dispersion coefficients are multiplied, rates and frequencies divided.  The model matrices are mathematically unchanged;
+    parameter *magnitudes* change by ``unit`` (1e6: picosecond rates on an attosecond axis, ...)."""
+    if unit == 1:
+        return case
+    c = copy.deepcopy(case)
+    for grp, items in c["parameters"].items():
+        for item in items:
+            if grp in ("rates", "osc"):
+                item[1] = item[1] / unit
+            elif grp == "irf" and TIME_PARAMETERS["irf"](item[0]):
+                item[1] = item[1] * unit
+    for d in c["datasets"].values():
+        d["time"] = [t * unit for t in d["time"]]
+    c["time_unit"] = unit
+    return c
+
+
 def _convert_spec(spec):
     spec = copy.deepcopy(spec)
     for km in spec.get("k_matrix", {}).values():
